@@ -87,7 +87,7 @@ Definition run_ucase (k : ucase) : N :=
 (* s_call / e_newcalls come from the harness with every positional argument, starred or not, as a
    token in r_pos and r_star = None; s_stars lists (token of "xs", token of "*xs") for the starred
    ones, so that `args[-1].startswith("*")` of CallInfo.read can be decided here *)
-Record site := { s_implicit : bool; s_ctor : bool; s_call : rendered; s_stars : list (N * N) }.
+Record site := { s_callee : callee; s_implicit : bool; s_ctor : bool; s_call : rendered; s_stars : list (N * N) }.
 
 Fixpoint star_base (stars : list (N * N)) (t : N) : option N :=
   match stars with
@@ -124,6 +124,7 @@ Definition norm_out (stars : list (N * N)) (r : rendered) : rendered :=
   end.
 
 Record ecase := {
+  e_init : bool;                       (* the changed function is an __init__ *)
   e_rdel : bool;                       (* which variant of ArgumentRemover rope runs (probed) *)
   e_fixed : bool;                      (* which variant of the header parser rope runs (probed) *)
   e_ast   : astargs;                   (* the header as CPython's ast sees it *)
@@ -133,14 +134,10 @@ Record ecase := {
   e_newcalls : list rendered
 }.
 
-Definition model_site (rdel : bool) (d : definfo) (cs : list changer) (s : site) : option rendered :=
-  match call_read d (s_implicit s) (s_ctor s) (norm_in (s_stars s) (s_call s)) with
-  | None => None
-  | Some c => match change_call rdel cs d c with
-              | Some c' => option_map (norm_out (s_stars s)) (call_render c')
-              | None => None
-              end
-  end.
+(* e_init: the changed function is an __init__ (the constructor finder is added) *)
+Definition model_site (rdel is_init : bool) (d : definfo) (cs : list changer) (s : site) : option rendered :=
+  option_map (norm_out (s_stars s))
+    (change_site rdel is_init d cs (mkPsite (s_callee s) (s_implicit s) (s_ctor s) (norm_in (s_stars s) (s_call s)))).
 
 Fixpoint all_some {A} (l : list (option A)) : option (list A) :=
   match l with
@@ -149,7 +146,8 @@ Fixpoint all_some {A} (l : list (option A)) : option (list A) :=
   | None :: _ => None
   end.
 
-Definition site_preserved (rdel : bool) (d : definfo) (cs : list changer) (s : site) : N :=
+Definition site_preserved (rdel is_init : bool) (d : definfo) (cs : list changer) (s : site) : N :=
+  if negb (finder_finds is_init (s_callee s)) then 0%N else
   match call_read d (s_implicit s) (s_ctor s) (norm_in (s_stars s) (s_call s)) with
   | Some c => preserved rdel d cs c
   | None => 0%N
@@ -164,7 +162,7 @@ Definition read_ok (fixed : bool) (a : astargs) : bool :=
   match a_kwonly a with [] => opt_eqb def_eqb (def_read fixed a) (Some (def_of_ast a)) | _ => false end.
 
 Definition e_site_code (k : ecase) (s : site) : N :=
-  if read_ok (e_fixed k) (e_ast k) then site_preserved (e_rdel k) (e_def k) (e_cs k) s else 0%N.
+  if read_ok (e_fixed k) (e_ast k) then site_preserved (e_rdel k) (e_init k) (e_def k) (e_cs k) s else 0%N.
 
 (* the observable is the emitted text: a parameter whose *name* is the string "*r" (the misread vararg)
    and the vararg r both print as `*r`; both sides are brought to the same token before comparing *)
@@ -182,7 +180,7 @@ Definition canon_tok (a : astargs) (t : ptoken) : ptoken :=
 
 Definition run_ecase (k : ecase) : N :=
   let md := match def_read (e_fixed k) (e_ast k) with Some d => apply_defs (e_cs k) d | None => None end in
-  let mc := all_some (map (model_site (e_rdel k) (e_def k) (e_cs k)) (e_sites k)) in
+  let mc := all_some (map (model_site (e_rdel k) (e_init k) (e_def k) (e_cs k)) (e_sites k)) in
   match md, mc with
   | Some d', Some calls =>
       match e_newdef k with
